@@ -1,5 +1,8 @@
 use qv::check::{self, Ctx, Tier};
 
+#[global_allocator]
+static ALLOC: qv::alloc::Counting = qv::alloc::Counting;
+
 fn usage() -> ! {
     eprintln!("usage: qv check <ID> [--tier quick|thorough] [--seed N] [--threads N] [--replay FILE]");
     std::process::exit(2)
@@ -83,6 +86,7 @@ fn main() {
         "C07" => check::hon::run_c07(&ctx),
         "C08" => check::c08::run(&ctx),
         "C09" => check::c09::run(&ctx),
+        "C03" => check::c03::run(&ctx),
         "C06" => check::c06::run(&ctx),
         "C11" => check::c11::run(&ctx),
         "C12" => check::hon::run_c12(&ctx),
